@@ -884,21 +884,21 @@ def s_re_fullmatch(ev, r, x): return SV(BOOL, re_fullmatch(r.z, x.z))
 
 
 # ---- tokenised automaton descriptions (C17): sets read off the list of transitions / a list of names; explicit definitions (set comprehensions)
-_LT3 = LIST(KEY3); _LT3s = sort_of(_LT3); _LA = LIST(ATOM); _LAs = sort_of(_LA)
-tr_labels = Function('tr_labels', _LT3s, Int, SetA)                      # labels of the first n transitions
-tr_ends = Function('tr_ends', _LT3s, Int, SetA)                          # end points of the first n transitions
-tr_keys = Function('tr_keys', _LT3s, Int, sort_of(SET(KEY2)))            # (source, label) of the first n transitions
-list_elems = Function('list_elems', _LAs, SetA)                          # the elements of a list of names
+_LT3d = LIST(KEY3); _LT3ds = sort_of(_LT3d); _LAd = LIST(ATOM); _LAds = sort_of(_LAd)
+tr_labels = Function('tr_labels', _LT3ds, Int, SetA)                      # labels of the first n transitions
+tr_ends = Function('tr_ends', _LT3ds, Int, SetA)                          # end points of the first n transitions
+tr_keys = Function('tr_keys', _LT3ds, Int, sort_of(SET(KEY2)))            # (source, label) of the first n transitions
+list_elems = Function('list_elems', _LAds, SetA)                          # the elements of a list of names
 def _descr_axioms():
-    L = Const('L_', _LT3s); n, t = Const('n_', Int), Const('t_', Int); x, y = Const('x_', Atom), Const('y_', Atom); M = Const('M_', _LAs)
-    arr = parts(_LT3)[3](L); el = Select(arr, t); f0, f1, f2 = [parts(KEY3)[2 + i](el) for i in range(3)]
+    L = Const('L_', _LT3ds); n, t = Const('n_', Int), Const('t_', Int); x, y = Const('x_', Atom), Const('y_', Atom); M = Const('M_', _LAds)
+    arr = parts(_LT3d)[3](L); el = Select(arr, t); f0, f1, f2 = [parts(KEY3)[2 + i](el) for i in range(3)]
     axiom('descr', 'def', 'tr_labels-elim', ForAll([L, n, x], Implies(Select(tr_labels(L, n), x), Exists([t], And(0 <= t, t < n, f1 == x))), patterns=[Select(tr_labels(L, n), x)]))
     axiom('descr', 'def', 'tr_labels-intro', ForAll([L, n, t], Implies(And(0 <= t, t < n), Select(tr_labels(L, n), f1)), patterns=[z3.MultiPattern(tr_labels(L, n), el)]))
     axiom('descr', 'def', 'tr_ends-elim', ForAll([L, n, x], Implies(Select(tr_ends(L, n), x), Exists([t], And(0 <= t, t < n, Or(f0 == x, f2 == x)))), patterns=[Select(tr_ends(L, n), x)]))
     axiom('descr', 'def', 'tr_ends-intro', ForAll([L, n, t], Implies(And(0 <= t, t < n), And(Select(tr_ends(L, n), f0), Select(tr_ends(L, n), f2))), patterns=[z3.MultiPattern(tr_ends(L, n), el)]))
     axiom('descr', 'def', 'tr_keys-elim', ForAll([L, n, x, y], Implies(Select(tr_keys(L, n), mkKey2(x, y)), Exists([t], And(0 <= t, t < n, f0 == x, f1 == y))), patterns=[Select(tr_keys(L, n), mkKey2(x, y))]))
     axiom('descr', 'def', 'tr_keys-intro', ForAll([L, n, t], Implies(And(0 <= t, t < n), Select(tr_keys(L, n), mkKey2(f0, f1))), patterns=[z3.MultiPattern(tr_keys(L, n), el)]))
-    marr = parts(_LA)[3](M); mlen = parts(_LA)[2](M)
+    marr = parts(_LAd)[3](M); mlen = parts(_LAd)[2](M)
     axiom('descr', 'def', 'list_elems-elim', ForAll([M, x], Implies(Select(list_elems(M), x), Exists([t], And(0 <= t, t < mlen, Select(marr, t) == x))), patterns=[Select(list_elems(M), x)]))
     axiom('descr', 'def', 'list_elems-intro', ForAll([M, t], Implies(And(0 <= t, t < mlen), Select(list_elems(M), Select(marr, t))), patterns=[z3.MultiPattern(list_elems(M), Select(marr, t))]))
 _descr_axioms()
